@@ -130,6 +130,7 @@ type stackTransport struct {
 	mutate     func(*http.Response)
 	bodyCloses *int
 	reqBody    []byte
+	keepRequestOpen bool
 	catchPanic bool
 	panicked   bool
 	panicVal   any
@@ -145,6 +146,16 @@ func (b *teeBody) Read(p []byte) (int, error) {
 	n, err := b.ReadCloser.Read(p)
 	b.t.reqBody = append(b.t.reqBody, p[:n]...)
 	return n, err
+}
+
+// Close: the handler closing its request body reaches the client's pipe only
+// through the transport; a transport that keeps the request open does not
+// pass it on.
+func (b *teeBody) Close() error {
+	if b.t.keepRequestOpen {
+		return nil
+	}
+	return b.ReadCloser.Close()
 }
 
 type countingBody struct {
@@ -196,7 +207,10 @@ func (t *stackTransport) Do(req *http.Request) (*http.Response, error) {
 		return nil, errors.New("transport: server aborted the response")
 	}
 	// a real server drains/closes the request body when the handler returns
-	_ = req.Body.Close()
+	// (keepRequestOpen models a transport that leaves that to the client)
+	if !t.keepRequestOpen {
+		_ = req.Body.Close()
+	}
 	status, header, trailer, body := rec.finish()
 	resp := &http.Response{
 		Status:     http.StatusText(status),
